@@ -626,7 +626,7 @@ func CheckMerge(prop, tier string) int {
 			cases = sel
 		}
 		if tier == "thorough" {
-			loads = 24
+			loads = 10
 		}
 	}
 	var mu sync.Mutex
@@ -639,7 +639,7 @@ func CheckMerge(prop, tier string) int {
 		if tier == "thorough" {
 			// several trees at a time; every worker keeps changing GOMAXPROCS (process-wide), which only adds
 			// scheduling noise to the others
-			workers = 6
+			workers = 8
 		}
 	}
 	ch := make(chan mCase, 64)
